@@ -26,7 +26,7 @@ LEVEL_NOTE = ('Finite value alphabets; sums reorder under permutation, so permut
 RULE = ("cases: (kind, configuration, chunk); executions: Fitter.fit calls compared pairwise; for histories a state is (fitter canonical hash, history) and a transition one fit; "
         "non-trivial = distinct non-identity permutations / constants != 1 / histories of length >= 2")
 ASSUMPTIONS = ["finite value alphabets", "canonical encoding of Fitter covers all state that can influence a fit (models.fluxes, names, wavelengths, distances, logd, extended, av_law, sc_law, av_range, filters)"]
-REQUIRED_CLASSES = ['both-limit-kinds-different-confidence', 'filter-perm', 'model-perm-files', 'brightness-constant', 'history-len3', 'history-repeat-same-source', 'mode-2d', 'mode-3d', 'float32-path',
+REQUIRED_CLASSES = ['earlier-results-rechecked', 'both-limit-kinds-different-confidence', 'filter-perm', 'model-perm-files', 'brightness-constant', 'history-len3', 'history-repeat-same-source', 'mode-2d', 'mode-3d', 'float32-path',
                     'source-with-limits', 'source-all-flag4']
 TIMEOUT = {'quick': 600, 'thorough': 3000}
 
@@ -251,6 +251,7 @@ def run_case(ctx, case, rec, d):
             fitter = fc.make_fitter(md, B4, 'power', avr, **kw)
             c0 = canon(fitter)
             rec.state(('hist', mode, case['variant'], c0))
+            handed_out = []
             for step, si in enumerate(seq):
                 fv, fl, er = srcs[si]
                 src = fc.make_source(fv, fl, er)
@@ -270,6 +271,14 @@ def run_case(ctx, case, rec, d):
                     c0 = c1
                 if canon(src) != cs:
                     rec.violation('history|source-modified|%s' % mode, sub, {'problem': 'the source passed in was modified', 'flags': list(fv)})
+                # results handed out by earlier fits are the caller's: a later fit must not change them
+                for (old_info, old_canon, old_step) in handed_out:
+                    if canon(_strip(old_info)) != old_canon:
+                        rec.violation('history|earlier-result-changed|%s' % mode, sub, {'problem': 'the result of fit #%d changed when fit #%d ran on the same fitter' % (old_step + 1, step + 1)})
+                        handed_out = []
+                        break
+                handed_out.append((info, got, step))
+                rec.cls('earlier-results-rechecked') if step else None
             rec.trace()
             if len(seq) >= 2:
                 rec.nontriv(('hist', mode, case['variant'], tuple(seq)))
